@@ -39,6 +39,7 @@ func init() { core.Register("C11", Run) }
 // op is one call an error handler makes on the ResponseWriter.
 //
 //	S k v: Header().Set   D k: Header().Del   H code: WriteHeader   W p: Write   E msg code: http.Error
+//	R k: Header().Set(k, r.Method + " " + r.URL.RawQuery + " " + r.Proto) - an error handler that looks at the request
 type op struct {
 	Kind string `json:"kind"`
 	A    string `json:"a"`
@@ -58,11 +59,23 @@ type outcome struct {
 	Fails bool   `json:"fails"`
 	// which error value Render returns when it fails (see errKinds); "" = "plain"
 	ErrKind string `json:"error_kind,omitempty"`
+	// the component consults ctx.Err() before writing anything and returns it: with a request whose
+	// context is already cancelled or expired it writes nothing and fails, whatever Sizes and Fails say
+	Aware bool `json:"context_aware,omitempty"`
 }
 
 type tcase struct {
 	Cfg config  `json:"config"`
 	Out outcome `json:"component"`
+	Req request `json:"request"`
+}
+
+// eff: what the component of the case does given the request's context.
+func (tc tcase) eff() outcome {
+	if tc.Out.Aware && tc.Req.done() {
+		return outcome{Seed: tc.Out.Seed, Fails: true, ErrKind: "the request context's Err()", Aware: true}
+	}
+	return tc.Out
 }
 
 type response struct {
@@ -70,9 +83,14 @@ type response struct {
 	Hdr    [][2]string `json:"headers"`
 	Body   []byte      `json:"-"`
 	Err    string      `json:"transport_error,omitempty"`
+	CL     int         `json:"-"` // Content-Length announced in reply to a HEAD over the server, -1: none
 }
 
+func sortHdr(h [][2]string) { sort.Slice(h, func(i, j int) bool { return h[i][0] < h[j][0] }) }
+
 const defaultCT = "text/html; charset=utf-8"
+
+const componentErrBody = "templ: failed to render template\n"
 
 func (c config) ctype() string {
 	if c.CT == nil {
@@ -216,10 +234,26 @@ type compOpts struct {
 	reached chan struct{} // closed when the component is blocked mid-render
 	gate    chan struct{}
 	yield   bool // let other goroutines run between chunks
+	aware   bool // return ctx.Err() before writing anything if the context is done
+	probe   *probe
 }
 
 func component(chunks [][]byte, err error, co *compOpts) templ.Component {
-	return templ.ComponentFunc(func(ctx context.Context, w io.Writer) error {
+	return templ.ComponentFunc(func(ctx context.Context, w io.Writer) (rerr error) {
+		if co != nil && co.probe != nil {
+			p := co.probe
+			p.renders++
+			if p.req == nil || ctx != p.req.Context() {
+				p.ctxOK = false
+			}
+			w = countingWriter{w, p}
+			defer func() { p.failed = rerr != nil }()
+		}
+		if co != nil && co.aware {
+			if cerr := ctx.Err(); cerr != nil {
+				return cerr
+			}
+		}
 		for i, ch := range chunks {
 			if co != nil && co.gate != nil && i == co.blockAt {
 				close(co.reached)
@@ -246,9 +280,25 @@ func component(chunks [][]byte, err error, co *compOpts) templ.Component {
 	})
 }
 
-func applyOps(w http.ResponseWriter, ops []op) {
+type countingWriter struct {
+	w io.Writer
+	p *probe
+}
+
+func (c countingWriter) Write(b []byte) (int, error) {
+	n, err := c.w.Write(b)
+	c.p.wrote += n
+	if err != nil {
+		c.p.writeErr = true
+	}
+	return n, err
+}
+
+func applyOps(w http.ResponseWriter, r *http.Request, ops []op) {
 	for _, o := range ops {
 		switch o.Kind {
+		case "R":
+			w.Header().Set(o.A, r.Method+" "+r.URL.RawQuery+" "+r.Proto)
 		case "S":
 			w.Header().Set(o.A, o.B)
 		case "D":
@@ -266,16 +316,28 @@ func applyOps(w http.ResponseWriter, ops []op) {
 }
 
 func opsHandler(ops []op) http.Handler {
-	return http.HandlerFunc(func(w http.ResponseWriter, r *http.Request) { applyOps(w, ops) })
+	return http.HandlerFunc(func(w http.ResponseWriter, r *http.Request) { applyOps(w, r, ops) })
 }
 
-// handlerFor builds the real templ handler for a case, through the exported API only.
-func handlerFor(tc tcase, chunks [][]byte) http.Handler { return handlerForOpt(tc, chunks, nil) }
+// handlerFor builds the real templ handler for a case, through the exported API only, behind the
+// middleware that puts the request's context into the state the case asks for.
+func handlerFor(tc tcase, chunks [][]byte, p *probe) http.Handler {
+	return handlerForOpt(tc, chunks, &compOpts{probe: p})
+}
 
 func handlerForOpt(tc tcase, chunks [][]byte, co *compOpts) http.Handler {
-	var renderErr error
+	if co == nil {
+		co = &compOpts{}
+	}
+	co.aware = tc.Out.Aware
+	p := co.probe
+	var compErr error // what the component returns after its chunks
 	if tc.Out.Fails {
-		renderErr = mkErr(tc.Out.ErrKind)
+		compErr = mkErr(tc.Out.ErrKind)
+	}
+	renderErr := compErr // what Render returns, which the error handler must be given
+	if tc.Out.Aware && tc.Req.done() {
+		renderErr = tc.Req.ctxErr()
 	}
 	var opts []func(*templ.ComponentHandler)
 	if tc.Cfg.Status != 0 {
@@ -292,57 +354,50 @@ func handlerForOpt(tc tcase, chunks [][]byte, co *compOpts) http.Handler {
 					http.Error(w, "c11: error handler received a different error", 599)
 				})
 			}
+			if p != nil {
+				p.ehCalls++
+				if r != p.req {
+					p.ehReqOK = false
+				}
+				return http.HandlerFunc(func(w http.ResponseWriter, r2 *http.Request) {
+					if r2 != p.req {
+						p.ehReqOK = false
+					}
+					applyOps(w, r2, ops)
+				})
+			}
 			return opsHandler(ops)
 		}))
 	}
 	if tc.Cfg.Stream {
 		opts = append(opts, templ.WithStreaming())
 	}
-	return templ.Handler(component(chunks, renderErr, co), opts...)
+	return underContext(templ.Handler(component(chunks, compErr, co), opts...), tc.Req, p)
 }
 
 // ---------- drivers: recorder and real server ----------
 
-func project(res *http.Response, body []byte, server bool, clOK *bool) response {
-	r := response{Status: res.StatusCode, Body: body}
-	for k, v := range res.Header {
-		if server && k == "Date" {
-			continue
-		}
-		if server && k == "Content-Length" {
-			if n, err := strconv.Atoi(strings.Join(v, ",")); err != nil || n != len(body) {
-				*clOK = false
-			}
-			continue
-		}
-		r.Hdr = append(r.Hdr, [2]string{k, strings.Join(v, ", ")})
-	}
-	sort.Slice(r.Hdr, func(i, j int) bool { return r.Hdr[i][0] < r.Hdr[j][0] })
-	return r
-}
-
-func viaRecorder(h http.Handler) response {
-	rec := httptest.NewRecorder()
-	req := httptest.NewRequest(http.MethodGet, "/", nil)
-	h.ServeHTTP(rec, req)
-	res := rec.Result()
-	body, _ := io.ReadAll(res.Body)
-	ok := true
-	return project(res, body, false, &ok)
-}
-
 type server struct {
-	ts   *httptest.Server
+	ts   *httptest.Server // HTTP/1.x
+	ts2  *httptest.Server // HTTP/2 (over TLS)
 	mu   sync.RWMutex
 	hs   map[string]http.Handler
 	next int
 	clOK bool
+	h2OK bool // every request meant for HTTP/2 was served over HTTP/2
+	nH2  int
 	cli  *http.Client
+	cli2 *http.Client
+}
+
+func (s *server) close() {
+	s.ts.Close()
+	s.ts2.Close()
 }
 
 func newServer() *server {
-	s := &server{hs: map[string]http.Handler{}, clOK: true}
-	s.ts = httptest.NewUnstartedServer(http.HandlerFunc(func(w http.ResponseWriter, r *http.Request) {
+	s := &server{hs: map[string]http.Handler{}, clOK: true, h2OK: true}
+	mux := http.HandlerFunc(func(w http.ResponseWriter, r *http.Request) {
 		s.mu.RLock()
 		h := s.hs[r.URL.Path]
 		s.mu.RUnlock()
@@ -351,10 +406,16 @@ func newServer() *server {
 			return
 		}
 		h.ServeHTTP(w, r)
-	}))
+	})
+	s.ts = httptest.NewUnstartedServer(mux)
 	s.ts.Config.ErrorLog = log.New(io.Discard, "", 0) // "superfluous WriteHeader" from the streamed error path
 	s.ts.Start()
 	s.cli = s.ts.Client()
+	s.ts2 = httptest.NewUnstartedServer(mux)
+	s.ts2.Config.ErrorLog = log.New(io.Discard, "", 0)
+	s.ts2.EnableHTTP2 = true
+	s.ts2.StartTLS()
+	s.cli2 = s.ts2.Client()
 	return s
 }
 
@@ -367,37 +428,12 @@ func (s *server) register(h http.Handler) string {
 	return p
 }
 
-func (s *server) fetch(path string) response {
-	res, err := s.cli.Get(s.ts.URL + path)
-	s.mu.Lock()
-	delete(s.hs, path)
-	s.mu.Unlock()
-	if err != nil {
-		return response{Status: -1, Err: err.Error()}
-	}
-	body, rerr := io.ReadAll(res.Body)
-	res.Body.Close()
-	ok := true
-	r := project(res, body, true, &ok)
-	if !ok {
-		s.mu.Lock()
-		s.clOK = false
-		s.mu.Unlock()
-	}
-	if rerr != nil {
-		r.Err = rerr.Error()
-	}
-	return r
-}
-
-func (s *server) run(h http.Handler) response { return s.fetch(s.register(h)) }
-
 // ehAloneHandler: the error handler on its own, on a writer on which only the configured
 // Content-Type has been set - the independent reference for "exactly what the error handler wrote".
 func ehAloneHandler(ops []op, ct string) http.Handler {
 	return http.HandlerFunc(func(w http.ResponseWriter, r *http.Request) {
 		w.Header().Set("Content-Type", ct)
-		applyOps(w, ops)
+		applyOps(w, r, ops)
 	})
 }
 
@@ -431,12 +467,13 @@ func encResp(r response) [][]byte {
 	return append(a, r.Body)
 }
 
-func serveReq(tc tcase, chunks [][]byte, real, ehr response) drv.Req {
+func serveReq(tc tcase, via string, chunks [][]byte, real, ehr response) drv.Req {
 	mode := "b"
 	if tc.Cfg.Stream {
 		mode = "s"
 	}
-	a := [][]byte{[]byte(mode), itoa(tc.Cfg.Status), []byte(tc.Cfg.ctype()), flag(tc.Out.Fails), itoa(len(chunks))}
+	a := append([][]byte{viaCode(via)}, encRequest(tc.Req)...)
+	a = append(a, []byte(mode), itoa(tc.Cfg.Status), []byte(tc.Cfg.ctype()), flag(tc.Out.Aware), flag(tc.Out.Fails), itoa(len(chunks)))
 	a = append(a, chunks...)
 	if tc.Cfg.EH != nil {
 		a = append(a, flag(true))
@@ -450,7 +487,7 @@ func serveReq(tc tcase, chunks [][]byte, real, ehr response) drv.Req {
 }
 
 func sameResp(a, b response) bool {
-	if a.Status != b.Status || a.Err != b.Err || len(a.Hdr) != len(b.Hdr) || string(a.Body) != string(b.Body) {
+	if a.Status != b.Status || a.Err != b.Err || a.CL != b.CL || len(a.Hdr) != len(b.Hdr) || string(a.Body) != string(b.Body) {
 		return false
 	}
 	for i := range a.Hdr {
@@ -477,6 +514,7 @@ var (
 		{{Kind: "H", A: "503"}},  // status only
 		{{Kind: "S", A: "Content-Type", B: "application/problem+json"}, {Kind: "S", A: "Cache-Control", B: "no-store"}, {Kind: "H", A: "422"}, {Kind: "W", A: `{"title":"render failed"}`}},
 		{{Kind: "E", A: "custom failure", B: "502"}},
+		{{Kind: "R", A: "X-Req"}, {Kind: "H", A: "409"}, {Kind: "W", A: "conflict"}}, // looks at the request
 	}
 	smallPatterns  = [][]int{{}, {0}, {1}, {1, 1}, {3, 5, 4}, {1, 1, 1, 1, 1, 1, 1, 1}, {0, 1, 0}}
 	mediumPatterns = [][]int{{4095}, {4096}, {4097}, {4096, 1}, {1, 4096}, {4096, 4096, 4096}, {4097, 4095, 1, 4096, 100}}
@@ -501,11 +539,13 @@ func product(sts []int, cts []*string, es []*[]op, pats [][]int, seed *uint64) [
 					for _, eh := range es {
 						for _, stream := range []bool{false, true} {
 							*seed++
-							o := outcome{Sizes: pat, Seed: *seed, Fails: fails}
+							o := outcome{Sizes: pat, Seed: *seed, Fails: fails, Aware: *seed%4 == 1}
 							if fails {
 								o.ErrKind = errKinds[int(*seed%uint64(len(errKinds)))].name
 							}
-							r = append(r, tcase{config{st, ct, eh, stream}, o})
+							// the request cycles through the structured list (whose length is prime), so that every
+							// request meets every error handler, mode and outcome
+							r = append(r, tcase{config{st, ct, eh, stream}, o, reqList[int(*seed%uint64(len(reqList)))]})
 						}
 					}
 				}
@@ -527,6 +567,10 @@ func randOps(r *rng.R) []op {
 	n := r.Intn(6)
 	ops := make([]op, 0, n)
 	for i := 0; i < n; i++ {
+		if r.Intn(12) == 0 {
+			ops = append(ops, op{Kind: "R", A: rng.Pick(r, []string{"X-Req", "X-Err", "X-Request-Id"})})
+			continue
+		}
 		switch r.Intn(8) {
 		case 0, 1:
 			k := rng.Pick(r, hdrKeys)
@@ -596,7 +640,7 @@ func randCase(r *rng.R, bigOK bool) tcase {
 	}
 	c.Stream = r.Intn(4) == 0
 	k := r.Intn(9)
-	o := outcome{Seed: r.U64(), Fails: r.Intn(3) != 0}
+	o := outcome{Seed: r.U64(), Fails: r.Intn(3) != 0, Aware: r.Intn(4) == 0}
 	if o.Fails {
 		o.ErrKind = errKinds[r.Intn(len(errKinds))].name
 	}
@@ -608,7 +652,7 @@ func randCase(r *rng.R, bigOK bool) tcase {
 		}
 		o.Sizes = append(o.Sizes, n)
 	}
-	return tcase{c, o}
+	return tcase{c, o, randRequest(r)}
 }
 
 // ---------- the check ----------
@@ -665,9 +709,12 @@ func total(sz []int) int {
 }
 
 func describeInput(o obs, all []obs) map[string]any {
-	in := map[string]any{"config": o.tc.Cfg, "component": o.tc.Out, "via": o.via,
+	in := map[string]any{"config": o.tc.Cfg, "component": o.tc.Out, "request": o.tc.Req, "via": o.via,
 		"response": map[string]any{"status": o.real.Status, "headers": o.real.Hdr, "body_len": len(o.real.Body), "body_head": clip(o.real.Body, 160), "transport_error": o.real.Err},
-		"how":      "templ.Handler(component, options from config) where the component writes chunk i = fill(chunk_seed, i, chunk_sizes[i]) (harness/internal/c11) to its io.Writer and then returns an error iff fails"}
+		"how":      "templ.Handler(component, options from config) where the component writes chunk i = fill(chunk_seed, i, chunk_sizes[i]) (harness/internal/c11) to its io.Writer and then returns an error iff fails (context_aware: it first returns ctx.Err() if that is non-nil); served with the request: method, protocol version, path + raw_query, headers, a body of body_size bytes, r.Context() put into the state 'context' by a middleware (live | ahead: deadline in an hour | canceled | exceeded: deadline passed); via recorder: handler.ServeHTTP(httptest.NewRecorder(), request); via server: the request sent to an httptest.Server (HTTP/1.0 written on a raw connection) and the response as the client receives it"}
+	if o.tc.Cfg.EH != nil {
+		in["error_handler_alone_response"] = map[string]any{"status": o.ehr.Status, "headers": o.ehr.Hdr, "body_len": len(o.ehr.Body), "body_head": clip(o.ehr.Body, 160)}
+	}
 	if total(o.tc.Out.Sizes) <= 200 {
 		var lit []string
 		for _, ch := range o.tc.Out.chunks() {
@@ -677,7 +724,7 @@ func describeInput(o obs, all []obs) map[string]any {
 	}
 	if o.prev >= 0 {
 		p := all[o.prev]
-		in["served_just_before"] = map[string]any{"config": p.tc.Cfg, "component": p.tc.Out}
+		in["served_just_before"] = map[string]any{"config": p.tc.Cfg, "component": p.tc.Out, "request": p.tc.Req}
 	}
 	return in
 }
@@ -692,9 +739,10 @@ func clip(b []byte, n int) string {
 // why names, for the reader of the replay, which clause of the property the response breaks
 // (the verdict itself is the extracted predicate's).
 func why(o obs) string {
+	eff := o.tc.eff()
 	doc := strings.Join(func() []string {
 		var s []string
-		for _, ch := range o.tc.Out.chunks() {
+		for _, ch := range eff.chunks() {
 			s = append(s, string(ch))
 		}
 		return s
@@ -703,7 +751,19 @@ func why(o obs) string {
 	if o.real.Err != "" || o.real.Status < 0 {
 		return "the request failed in transport: " + o.real.Err
 	}
-	if !o.tc.Out.Fails {
+	if o.via == "server" && o.tc.Req.Method == "HEAD" { // only status line and header section reach the client
+		switch {
+		case len(body) > 0:
+			return fmt.Sprintf("%d body bytes in reply to HEAD", len(body))
+		case !eff.Fails:
+			return fmt.Sprintf("rendering succeeded; the HEAD was answered with status %d / headers %v instead of the configured status and content type", o.real.Status, o.real.Hdr)
+		case o.tc.Cfg.EH == nil:
+			return fmt.Sprintf("rendering failed; the HEAD was answered with status %d / headers %v instead of the default error response's (500, text/plain, nosniff) - not what a GET of the same resource gets", o.real.Status, o.real.Hdr)
+		default:
+			return fmt.Sprintf("rendering failed; the HEAD was answered with status %d / headers %v, not with what the configured error handler answers to the same request on its own (status %d / headers %v)", o.real.Status, o.real.Hdr, o.ehr.Status, o.ehr.Hdr)
+		}
+	}
+	if !eff.Fails {
 		switch {
 		case body != doc && strings.HasPrefix(doc, body):
 			return fmt.Sprintf("rendering succeeded but only %d of %d document bytes were sent (status %d)", len(body), len(doc), o.real.Status)
@@ -746,9 +806,33 @@ func Run(c *core.Ctx) {
 
 	seed := c.Seed * 1000003
 	var cases []tcase
-	// 1. full product of configurations on small outputs (first, so that the first failure is minimal)
+	// 1. the request as a dimension of its own: every structured request (method x protocol version x
+	// context state, header sets, bodies, query strings; the plain GET first, so that the first failure is
+	// minimal) x configuration x component outcome, the context-aware components included
+	for _, rq := range reqList {
+		for _, st := range []int{0, 201} {
+			for _, eh := range []*[]op{nil, ehs[1], ehs[2], ehs[7]} {
+				for _, stream := range []bool{false, true} {
+					for _, o := range []outcome{
+						{Sizes: []int{}, Fails: true}, {Sizes: []int{7}, Fails: true}, {Sizes: []int{5, 0, 9}, Fails: true},
+						{Sizes: []int{5, 0, 9}}, {Sizes: []int{3, 4}, Aware: true}, {Sizes: []int{3, 4}, Fails: true, Aware: true}} {
+						seed++
+						o.Seed = seed
+						if o.Fails {
+							o.ErrKind = errKinds[int(seed%uint64(len(errKinds)))].name
+						}
+						cases = append(cases, tcase{config{st, nil, eh, stream}, o, rq})
+					}
+				}
+			}
+		}
+	}
+	c.Extra["structured_requests"] = len(reqList)
+	nReqSweep := len(cases)
+	c.Extra["cases_request_sweep"] = nReqSweep
+	// 1a. full product of configurations on small outputs, the request cycling through the structured list
 	cases = append(cases, product(statuses, ctypes, ehs, smallPatterns, &seed)...)
-	nSmall := len(cases)
+	nSmall := len(cases) - nReqSweep
 	// 1b. every kind of error value a component can fail with x failure point x configuration
 	for _, ek := range errKinds {
 		for _, pat := range [][]int{{}, {7}, {5, 0, 9}} {
@@ -756,7 +840,7 @@ func Run(c *core.Ctx) {
 				for _, eh := range []*[]op{nil, ehs[1], ehs[2]} {
 					for _, stream := range []bool{false, true} {
 						seed++
-						cases = append(cases, tcase{config{st, nil, eh, stream}, outcome{Sizes: pat, Seed: seed, Fails: true, ErrKind: ek.name}})
+						cases = append(cases, tcase{config{st, nil, eh, stream}, outcome{Sizes: pat, Seed: seed, Fails: true, ErrKind: ek.name}, reqList[int(seed%uint64(len(reqList)))]})
 					}
 				}
 			}
@@ -788,25 +872,25 @@ func Run(c *core.Ctx) {
 	c.Extra["cases_random"] = nRand
 
 	srv := newServer()
-	defer srv.ts.Close()
+	defer srv.close()
 
-	// the error handler on its own, per (ops, content type), on each transport
-	type ehKey struct{ ops, ct, via string }
+	// the error handler on its own, per (ops, content type, request), on each transport
+	type ehKey struct{ ops, ct, req, via string }
 	ehCache := map[ehKey]response{}
-	ehAlone := func(cfg config, via string) response {
+	ehAlone := func(cfg config, rq request, via string) response {
 		if cfg.EH == nil {
-			return response{}
+			return response{CL: -1}
 		}
-		k := ehKey{fmt.Sprint(*cfg.EH), cfg.ctype(), via}
+		k := ehKey{fmt.Sprint(*cfg.EH), cfg.ctype(), rq.key(), via}
 		if r, ok := ehCache[k]; ok {
 			return r
 		}
 		h := ehAloneHandler(*cfg.EH, cfg.ctype())
 		var r response
 		if via == "server" {
-			r = srv.run(h)
+			r = srv.run(h, rq)
 		} else {
-			r = viaRecorder(h)
+			r = viaRecorder(h, rq)
 		}
 		ehCache[k] = r
 		return r
@@ -822,38 +906,130 @@ func Run(c *core.Ctx) {
 			all[i].real.Body, all[i].ehr.Body = nil, nil
 		}
 	}
+	// what the handler handed to the component and the error handler (see probe)
+	handedOK, handedDetail, nStreamWriteErr := true, "", 0
+	checkProbe := func(tc tcase, via string, p *probe, real response) {
+		select {
+		case <-p.finished:
+		case <-time.After(20 * time.Second):
+			if handedOK {
+				handedOK, handedDetail = false, "the handler did not return"
+			}
+			return
+		}
+		eff := tc.eff()
+		wantEH := 0
+		if eff.Fails && tc.Cfg.EH != nil {
+			wantEH = 1
+		}
+		problem := ""
+		switch {
+		case p.renders != 1:
+			problem = fmt.Sprintf("the component was rendered %d times", p.renders)
+		case !p.ctxOK:
+			problem = "the component was not rendered with the request's context"
+		case p.writeErr && tc.Cfg.Stream && via == "server":
+			// the streamed component writes to the connection itself, and a write there can fail (HTTP/2 closes
+			// the stream of a HEAD once the header block is out): outside the model (no write errors), and
+			// nothing a buffered handler's component can meet - it writes to the pooled buffer
+			nStreamWriteErr++
+		case p.wrote != total(eff.Sizes) || p.failed != eff.Fails:
+			problem = fmt.Sprintf("the component wrote %d bytes and failed=%v where %d bytes and failed=%v were expected", p.wrote, p.failed, total(eff.Sizes), eff.Fails)
+		case p.ehCalls != wantEH:
+			problem = fmt.Sprintf("the error handler was obtained %d times, expected %d", p.ehCalls, wantEH)
+		case !p.ehReqOK:
+			problem = "the error handler was not given the request the handler was called with"
+		}
+		if problem != "" {
+			if handedOK {
+				handedOK, handedDetail = false, problem
+				o := obs{tc: tc, via: via, real: real, prev: -1}
+				c.Fail("tie", "handler: what the component and the error handler are handed (model = implementation)", "", describeInput(o, nil), problem)
+			}
+		}
+	}
+	// a Content-Length sent in reply to HEAD announces the body a GET would get: for a buffered handler
+	// it must be the length of the body the specification demands (document / fixed message / what the
+	// error handler alone announces to the same request)
+	headCLOK, nHeadCL := true, 0
+	type clFail struct {
+		in     map[string]any
+		detail string
+	}
+	var clFails []clFail // reported after the specification predicate's own verdicts
+	checkHeadCL := func(tc tcase, sr, es response, prev int) {
+		if tc.Req.Method != "HEAD" || tc.Cfg.Stream || sr.Status < 0 {
+			return
+		}
+		eff := tc.eff()
+		ok, want := true, ""
+		switch {
+		case !eff.Fails:
+			ok, want = sr.CL == -1 || sr.CL == total(eff.Sizes), fmt.Sprintf("the document's length %d", total(eff.Sizes))
+		case tc.Cfg.EH == nil:
+			ok, want = sr.CL == -1 || sr.CL == len(componentErrBody), fmt.Sprintf("the default error message's length %d", len(componentErrBody))
+		default:
+			ok, want = sr.CL == es.CL, fmt.Sprintf("what the error handler on its own announces to the same request (%d; -1 = none)", es.CL)
+		}
+		if sr.CL >= 0 {
+			nHeadCL++
+		}
+		if !ok {
+			headCLOK = false
+			if len(clFails) < 3 {
+				o := obs{tc: tc, via: "server", real: sr, ehr: es, prev: prev}
+				in := describeInput(o, all)
+				in["content_length"] = sr.CL
+				clFails = append(clFails, clFail{in, fmt.Sprintf("the HEAD response announces Content-Length %d, not %s", sr.CL, want)})
+			}
+		}
+	}
 	batchBytes, from := 0, 0
 	for i, tc := range cases {
 		chunks := tc.Out.chunks()
 		// served one after the other on this goroutine: each request gets the buffer the previous one released
-		rr := viaRecorder(handlerFor(tc, chunks))
-		er := ehAlone(tc.Cfg, "recorder")
+		pr := newProbe()
+		rr := viaRecorder(handlerFor(tc, chunks, pr), tc.Req)
+		checkProbe(tc, "recorder", pr, rr)
+		er := ehAlone(tc.Cfg, tc.Req, "recorder")
 		useServer := i < nSweep || i%2 == 0
 		var sr, es response
-		if useServer {
-			sr = srv.run(handlerFor(tc, chunks))
-			es = ehAlone(tc.Cfg, "server")
-		}
 		prev := len(all) - 1
-		if useServer && sameResp(rr, sr) && sameResp(er, es) {
+		if useServer {
+			ps := newProbe()
+			sr = srv.run(handlerFor(tc, chunks, ps), tc.Req)
+			if sr.Status >= 0 {
+				checkProbe(tc, "server", ps, sr)
+			}
+			es = ehAlone(tc.Cfg, tc.Req, "server")
+			checkHeadCL(tc, sr, es, prev)
+		}
+		// one evaluation for both transports when they observed the same (never for HEAD: its client sees no body)
+		if useServer && tc.Req.Method != "HEAD" && sameResp(rr, sr) && sameResp(er, es) {
 			all = append(all, obs{tc: tc, via: "both", real: rr, ehr: er, prev: prev})
-			reqs = append(reqs, serveReq(tc, chunks, rr, er))
+			reqs = append(reqs, serveReq(tc, "recorder", chunks, rr, er))
 		} else {
 			all = append(all, obs{tc: tc, via: "recorder", real: rr, ehr: er, prev: prev})
-			reqs = append(reqs, serveReq(tc, chunks, rr, er))
+			reqs = append(reqs, serveReq(tc, "recorder", chunks, rr, er))
 			if useServer {
 				all = append(all, obs{tc: tc, via: "server", real: sr, ehr: es, prev: prev})
-				reqs = append(reqs, serveReq(tc, chunks, sr, es))
+				reqs = append(reqs, serveReq(tc, "server", chunks, sr, es))
 			}
 		}
-		batchBytes += 2*total(tc.Out.Sizes) + 200
+		batchBytes += 2*total(tc.Out.Sizes) + tc.Req.BodySize + 300
 		if batchBytes > 24<<20 {
 			flush(from)
 			from, batchBytes = len(all), 0
 		}
 	}
 	flush(from)
+	for _, f := range clFails {
+		c.Fail("property", "handler: buffered, server, Content-Length announced in reply to HEAD", "", f.in, f.detail)
+	}
 
+	c.Extra["streamed_server_cases_with_a_failing_connection_write"] = nStreamWriteErr
+	c.Oblige("correspondence", "handler: the component is rendered exactly once, with r.Context(), and the error handler is obtained once, for the request itself, iff rendering failed (recorder and server, every case)", handedOK, handedDetail)
+	c.Oblige("correspondence", fmt.Sprintf("handler: every Content-Length announced in reply to a HEAD (buffered, server; %d of them) is the length of the body the specification demands", nHeadCL), headCLOK, "")
 	for _, k := range famKeys {
 		st := fams[k]
 		if st == nil {
@@ -861,11 +1037,12 @@ func Run(c *core.Ctx) {
 		}
 		c.Oblige("correspondence", "handler: model = templ.Handler, "+k+" ("+strconv.Itoa(st.n)+" responses)", st.tieOK, "")
 		if strings.HasPrefix(k, "buffered") {
-			c.Oblige("correspondence", "handler: specification predicate all_or_nothing_b (extracted) holds of the real response, "+k, st.propOK, "")
+			c.Oblige("correspondence", "handler: specification predicate (extracted: all_or_nothing_b; all_or_nothing_wire_b for what the client of a HEAD receives) holds of the real response, "+k, st.propOK, "")
 		}
 	}
 	c.Oblige("contract", "ResponseWriter model = net/http on the error handlers run on their own (recorder and server)", ehTieOK, ehTieDetail)
-	c.Oblige("side-condition", "every Content-Length sent by the server equals the body length received", srv.clOK, "")
+	c.Oblige("side-condition", "every Content-Length sent by the server in reply to a method other than HEAD equals the body length received", srv.clOK, "")
+	c.Oblige("side-condition", fmt.Sprintf("every request meant for HTTP/2 was answered over HTTP/2 (%d so far)", srv.nH2), srv.h2OK, "")
 	c.Extra["streamed_failing_responses_not_all_or_nothing"] = streamedPartial
 	c.Extra["error_handler_alone_responses"] = len(ehCache)
 
@@ -876,7 +1053,7 @@ func Run(c *core.Ctx) {
 	poolDiscipline(c, "after the whole run")
 	for i, o := range all {
 		if i%(len(all)/6+1) == 0 || (o.tc.Out.Fails && len(c.Samples) < 3) {
-			c.Sample(map[string]any{"config": o.tc.Cfg, "chunk_sizes": o.tc.Out.Sizes, "fails": o.tc.Out.Fails, "via": o.via,
+			c.Sample(map[string]any{"config": o.tc.Cfg, "request": o.tc.Req, "chunk_sizes": o.tc.Out.Sizes, "fails": o.tc.Out.Fails, "context_aware": o.tc.Out.Aware, "via": o.via,
 				"status": o.real.Status, "headers": o.real.Hdr, "body_len": o.bodyLen, "body_head": o.head})
 		}
 	}
@@ -910,6 +1087,7 @@ func checkBatch(c *core.Ctx, all []obs, from int, reqs []drv.Req) {
 	res := c.Model(reqs)
 	for j, r := range res {
 		o := all[from+j]
+		eff := o.tc.eff()
 		mode := "buffered"
 		if o.tc.Cfg.Stream {
 			mode = "streamed"
@@ -928,20 +1106,21 @@ func checkBatch(c *core.Ctx, all []obs, from int, reqs []drv.Req) {
 			st := fam(mode + ", " + via)
 			st.n++
 			key := ""
-			if o.tc.Out.Fails || total(o.tc.Out.Sizes) >= 4095 {
-				key = fmt.Sprintf("%v|%v|%v|%s", o.tc.Cfg.Status, o.tc.Cfg.ctype(), o.tc.Cfg.EH, mode) + fmt.Sprint(o.tc.Cfg.CT == nil, o.tc.Out.Sizes, o.tc.Out.Fails, via)
+			if eff.Fails || total(eff.Sizes) >= 4095 {
+				key = fmt.Sprintf("%v|%v|%v|%s", o.tc.Cfg.Status, o.tc.Cfg.ctype(), o.tc.Cfg.EH, mode) + fmt.Sprint(o.tc.Cfg.CT == nil, o.tc.Out.Sizes, o.tc.Out.Fails, o.tc.Out.Aware, via) + o.tc.Req.key()
 			}
 			c.Count(key)
 			res := "succeeds"
-			if o.tc.Out.Fails {
+			if eff.Fails {
 				res = "fails"
 			}
 			c.Hist(mode + " / component " + res + " / error handler " + ehKind(o.tc.Cfg))
-			c.Hist("output: " + sizeClass(o.tc.Out.Sizes))
-			if o.tc.Out.Fails {
-				c.Hist("error kind: " + errName(o.tc.Out))
+			c.Hist("output: " + sizeClass(eff.Sizes))
+			if eff.Fails {
+				c.Hist("error kind: " + errName(eff))
 			}
 			c.Hist("transport: " + via)
+			histRequest(c, o.tc)
 			family := "handler: " + mode + ", " + via
 			if !tie {
 				st.tieOK = false
@@ -960,15 +1139,40 @@ func checkBatch(c *core.Ctx, all []obs, from int, reqs []drv.Req) {
 				}
 			}
 		}
-		if o.tc.Cfg.Stream && o.tc.Out.Fails && !spec {
+		if o.tc.Cfg.Stream && eff.Fails && !spec {
 			streamedPartial++
 		}
 		if !ehtie {
 			if ehTieOK {
 				ehTieDetail = fmt.Sprintf("error handler %v with content type %q on its own (%s): real status %d headers %v body %q", o.tc.Cfg.EH, o.tc.Cfg.ctype(), o.via, o.ehr.Status, o.ehr.Hdr, clip(o.ehr.Body, 80))
-				c.Fail("tie", "rw: model of the ResponseWriter = net/http (error handler on its own)", "", map[string]any{"ops": o.tc.Cfg.EH, "content_type": o.tc.Cfg.ctype(), "via": o.via, "status": o.ehr.Status, "headers": o.ehr.Hdr, "body_head": clip(o.ehr.Body, 160)}, "model and implementation differ")
+				c.Fail("tie", "rw: model of the ResponseWriter = net/http (error handler on its own)", "", map[string]any{"ops": o.tc.Cfg.EH, "content_type": o.tc.Cfg.ctype(), "request": o.tc.Req, "via": o.via, "status": o.ehr.Status, "headers": o.ehr.Hdr, "body_head": clip(o.ehr.Body, 160)}, "model and implementation differ")
 			}
 			ehTieOK = false
+		}
+	}
+}
+
+func histRequest(c *core.Ctx, tc tcase) {
+	q := tc.Req
+	c.Hist("request method: " + q.class())
+	c.Hist("request protocol: " + q.Proto)
+	c.Hist("request context: " + q.Ctx)
+	switch {
+	case len(q.Hdr) > 0 && q.BodySize > 0:
+		c.Hist("request: header fields and body")
+	case len(q.Hdr) > 0:
+		c.Hist("request: header fields")
+	case q.BodySize > 0:
+		c.Hist("request: body")
+	}
+	if q.Query != "" {
+		c.Hist("request: query string")
+	}
+	if tc.Out.Aware {
+		if q.done() {
+			c.Hist("context-aware component / context done: renders nothing, returns ctx.Err()")
+		} else {
+			c.Hist("context-aware component / context not done")
 		}
 	}
 }
@@ -980,9 +1184,9 @@ func contrast(c *core.Ctx, srv *server) {
 	want := "Hello" + "templ: failed to render template\n"
 	ok := true
 	detail := ""
-	for _, run := range []func(http.Handler) response{viaRecorder, srv.run} {
-		s := run(templ.Handler(component(hello, errRender, nil), templ.WithStreaming()))
-		b := run(templ.Handler(component(hello, errRender, nil)))
+	for _, run := range []func(http.Handler, request) response{viaRecorder, srv.run} {
+		s := run(templ.Handler(component(hello, errRender, nil), templ.WithStreaming()), plainGET)
+		b := run(templ.Handler(component(hello, errRender, nil)), plainGET)
 		c.Count("")
 		c.Count("")
 		if !(s.Status == 200 && string(s.Body) == want) {
@@ -1003,6 +1207,7 @@ func rwContract(c *core.Ctx, srv *server) {
 	type item struct {
 		ops []op
 		via string
+		q   request
 		r   response
 	}
 	var items []item
@@ -1014,16 +1219,21 @@ func rwContract(c *core.Ctx, srv *server) {
 		} else { // make sure a type is there before anything is written
 			ops = append([]op{{Kind: "S", A: "Content-Type", B: "text/html"}}, ops...)
 		}
+		q := plainGET
+		if c.Rng.Intn(2) == 0 { // the writer as the client of any request sees it (HEAD: no body)
+			q = randRequest(c.Rng)
+		}
 		for _, via := range []string{"recorder", "server"} {
 			var r response
 			if via == "server" {
-				r = srv.run(opsHandler(ops))
+				r = srv.run(opsHandler(ops), q)
 			} else {
-				r = viaRecorder(opsHandler(ops))
+				r = viaRecorder(opsHandler(ops), q)
 			}
-			a := encOps(ops)
+			a := append([][]byte{viaCode(via)}, encRequest(q)...)
+			a = append(a, encOps(ops)...)
 			a = append(a, encResp(r)...)
-			items = append(items, item{ops, via, r})
+			items = append(items, item{ops, via, q, r})
 			reqs = append(reqs, drv.Req{Fn: "rw", Args: a})
 			c.Count("")
 			c.Hist("rw call sequence / " + via)
@@ -1041,7 +1251,7 @@ func rwContract(c *core.Ctx, srv *server) {
 			if len(r) == 4 {
 				d = fmt.Sprintf("model: status %s, headers %q, %s body bytes", r[1], r[2], r[3])
 			}
-			c.Fail("tie", "rw: model of the ResponseWriter = net/http ("+it.via+")", "", map[string]any{"ops": it.ops, "status": it.r.Status, "headers": it.r.Hdr, "body_head": clip(it.r.Body, 160), "transport_error": it.r.Err}, d)
+			c.Fail("tie", "rw: model of the ResponseWriter = net/http ("+it.via+")", "", map[string]any{"ops": it.ops, "request": it.q, "status": it.r.Status, "headers": it.r.Hdr, "body_head": clip(it.r.Body, 160), "transport_error": it.r.Err}, d)
 		}
 		if it.via == "server" {
 			okSrv = false
@@ -1067,7 +1277,7 @@ func concurrent(c *core.Ctx, srv *server, n int) {
 		chunks[i] = tc.Out.chunks()
 		paths[i] = srv.register(handlerForOpt(tc, chunks[i], &compOpts{yield: true}))
 		if tc.Cfg.EH != nil {
-			ehr[i] = srv.run(ehAloneHandler(*tc.Cfg.EH, tc.Cfg.ctype()))
+			ehr[i] = srv.run(ehAloneHandler(*tc.Cfg.EH, tc.Cfg.ctype()), tc.Req)
 		}
 	}
 	out := make([]response, n)
@@ -1078,7 +1288,7 @@ func concurrent(c *core.Ctx, srv *server, n int) {
 		go func() {
 			defer wg.Done()
 			for i := range work {
-				out[i] = srv.fetch(paths[i])
+				out[i] = srv.fetch(paths[i], cases[i].Req)
 			}
 		}()
 	}
@@ -1089,7 +1299,7 @@ func concurrent(c *core.Ctx, srv *server, n int) {
 	wg.Wait()
 	reqs := make([]drv.Req, n)
 	for i := range cases {
-		reqs[i] = serveReq(cases[i], chunks[i], out[i], ehr[i])
+		reqs[i] = serveReq(cases[i], "server", chunks[i], out[i], ehr[i])
 	}
 	res := c.Model(reqs)
 	ok := true
